@@ -220,3 +220,15 @@ impl Storage for DiskCache {
             .commit(f)?)
     }
 }
+
+/// Verification hook (only with `--cfg sccache_verif`): read-only view of what the
+/// two stores currently index (`None` while a store has not been opened yet),
+/// least recently used first, for the external harness.
+#[cfg(sccache_verif)]
+impl DiskCache {
+    #[allow(clippy::type_complexity)]
+    pub fn verif_indexes(&self) -> [Option<Vec<(OsString, u64)>>; 2] {
+        let view = |l: &Arc<Mutex<LazyDiskCache>>| l.lock().unwrap().get().map(|d| d.verif_index());
+        [view(&self.lru), view(&self.preprocessor_cache)]
+    }
+}
